@@ -196,6 +196,16 @@ pub fn catalogue(thorough: bool) -> Vec<Kind> {
     if t {
         c.push(Cmp { op: CmpOp::Lt, n: 253 });
     }
+    // operands declared with different bit bounds, both orders
+    for op in [CmpOp::Lt, CmpOp::Gt, CmpOp::Leq, CmpOp::Geq] {
+        c.push(Cmp2 { op, nx: 8, ny: 16 });
+        c.push(Cmp2 { op, nx: 16, ny: 8 });
+        if t {
+            for (nx, ny) in [(1usize, 8usize), (8, 1), (8, 9), (9, 8), (8, 64), (64, 8), (13, 253), (253, 13)] {
+                c.push(Cmp2 { op, nx, ny });
+            }
+        }
+    }
 
     // ---- DivisionInstructions ----
     c.extend([
@@ -239,7 +249,8 @@ pub fn catalogue(thorough: bool) -> Vec<Kind> {
                 c.push(VecObserve { t: ty, m: *m, a: *a, filler: Some(filler(ty)) });
                 c.push(VecFlags { t: ty, m: *m, a: *a });
                 for n in 0..=*m {
-                    c.push(VecTrim { t: ty, m: *m, a: *a, n });
+                    c.push(VecTrim { t: ty, m: *m, a: *a, n, observe: true });
+                    c.push(VecTrim { t: ty, m: *m, a: *a, n, observe: false });
                 }
             }
             for (m, a, l) in VEC_RESIZES {
@@ -251,12 +262,28 @@ pub fn catalogue(thorough: bool) -> Vec<Kind> {
             c.push(VecObserve { t: ty, m: 4, a: 1, filler: None });
             c.push(VecFlags { t: ty, m: 8, a: 4 });
             c.push(VecFlags { t: ty, m: 6, a: 2 });
-            c.push(VecTrim { t: ty, m: 8, a: 4, n: 1 });
-            c.push(VecTrim { t: ty, m: 8, a: 4, n: 5 });
-            c.push(VecTrim { t: ty, m: 6, a: 3, n: 3 });
-            c.push(VecTrim { t: ty, m: 6, a: 2, n: 0 });
+            // the count parameter crosses the chunk size A in both directions:
+            // n in {0, 1, A-1, A, A+1, 2A, M-1, M}
+            let shapes: &[(usize, usize)] = if ty == Ty::N { &[(8, 4), (6, 3), (12, 3)] } else { &[(8, 4)] };
+            for (m, a) in shapes {
+                let mut ns = vec![0, 1, a - 1, *a, a + 1, 2 * a, m - 1, *m];
+                ns.sort();
+                ns.dedup();
+                if ty == Ty::Y {
+                    ns.retain(|n| [1, *a, a + 1, *m].contains(n));
+                }
+                for n in ns {
+                    c.push(VecTrim { t: ty, m: *m, a: *a, n, observe: true });
+                    c.push(VecTrim { t: ty, m: *m, a: *a, n, observe: false });
+                }
+            }
+            c.push(VecTrim { t: ty, m: 6, a: 2, n: 0, observe: true });
             c.push(VecResize { t: ty, m: 8, a: 4, l: 12 });
             c.push(VecResize { t: ty, m: 6, a: 3, l: 9 });
+            if ty == Ty::N {
+                c.push(VecResize { t: ty, m: 12, a: 3, l: 15 });
+                c.push(VecFlags { t: ty, m: 12, a: 3 });
+            }
         }
     }
 
@@ -275,8 +302,24 @@ pub fn catalogue(thorough: bool) -> Vec<Kind> {
         c.push(AssignMany { ty: Ty::N, len, many: true });
     }
 
+    // ---- parameters crossing a structural constant in both directions ----
+    // terms per arithmetic row (4), parallel-add columns (3), range-table limb size (max_bit_len = 8)
+    c.push(LinComb { coefs: vec![f(2), f(3), f(5), f(7)], k: f(1) });
+    c.push(LinComb { coefs: vec![f(2), f(3), f(5), f(7), f(11)], k: f(1) });
+    c.push(LinComb { coefs: vec![f(2), f(3), f(5), f(7), f(11), f(13), f(17), f(19), f(23)], k: F::ZERO });
+    c.push(AddConsts(vec![f(1), f(2)]));
+    c.push(AddConsts(vec![f(1), f(2), f(3)]));
+    c.push(AddConsts(vec![f(1), f(2), f(3), f(4)]));
+    c.extend([ToChunks { bits: 7, nb: Some(2) }, ToChunks { bits: 9, nb: Some(2) }, ToChunks { bits: 8, nb: None }]);
+    c.extend([ToBits { nb: Some(7), canon: true, be: false }, ToBits { nb: Some(9), canon: true, be: false }]);
+    c.extend([AssertLower(b(255)), AssertLower(b(257)), AssertLower(b(512)), AssignLower(b(257)), AssignLower(b(128))]);
+    c.extend([BoundedOf(7), BoundedOf(9)]);
+
     provenance_entries(t, &mut c);
     composition_entries(t, &mut c);
+    // the same entry may be listed by two sections
+    let mut seen = std::collections::BTreeSet::new();
+    c.retain(|k| seen.insert(k.label()));
     c
 }
 
@@ -516,6 +559,20 @@ fn composition_entries(t: bool, c: &mut Vec<Kind>) {
 // ---------------------------------------------------------------------------------------------
 // operand classes
 // ---------------------------------------------------------------------------------------------
+
+trait MinByBound {
+    fn min_by_bound(self, bound: &BigUint) -> F;
+}
+impl MinByBound for F {
+    /// the value itself if it is below `bound`, else bound - 1
+    fn min_by_bound(self, bound: &BigUint) -> F {
+        if big(&self) < *bound {
+            self
+        } else {
+            fe(&(bound - BigUint::one()))
+        }
+    }
+}
 
 fn rnd(rng: &mut ChaCha8Rng) -> F {
     F::random(rng)
@@ -761,6 +818,41 @@ fn inputs_pool(kind: &Kind, thorough: bool, rng: &mut ChaCha8Rng) -> (Vec<Vec<V>
         },
         AssertTrue | AssertFalse | Not | Convert { from: Ty::B, .. } => vec![vec![V::B(true)], vec![V::B(false)]],
         StdLowerThan(k) | Cmp { n: k, .. } | Bitwise { n: k, .. } => two_n(pairs_ranged(rng, *k, nr)),
+        Cmp2 { nx, ny, .. } => {
+            // values of the wide operand exceed the narrow bound; equal, adjacent, and the
+            // boundary 2^narrow - 1 / 2^narrow on both sides; first out-of-domain values per operand
+            let (bx, by) = (two_pow(*nx), two_pow(*ny));
+            let narrow = two_pow(*nx.min(ny));
+            let wide_is_y = ny > nx;
+            let nmax = fe(&(&narrow - b(1)));
+            let wmax = fe(&(two_pow(*nx.max(ny)) - b(1)));
+            let beyond = (if narrow.bits() > 60 { fe(&(&narrow * b(3))) } else { fe(&(&narrow * b(3) + b(232))) }).min_by_bound(&two_pow(*nx.max(ny)));
+            let ord = |nv: F, wv: F| if wide_is_y { (nv, wv) } else { (wv, nv) };
+            let a = rnd_below(rng, &(&narrow - b(1)));
+            let mut v = vec![
+                ord(f(5).min_by_bound(&narrow), beyond),
+                ord(F::ZERO, fe(&narrow)),
+                ord(F::ZERO, fe(&(&narrow + b(1)))),
+                ord(nmax, nmax),
+                ord(nmax, fe(&narrow)),
+                ord(nmax, wmax),
+                ord(a, a + F::ONE),
+                ord(a + F::ONE, a),
+                ord(a, a),
+                ord(F::ZERO, F::ZERO),
+                ord(F::ZERO, wmax),
+                (fe(&bx), F::ZERO),
+                (F::ZERO, fe(&by)),
+                ord(fe(&narrow), beyond),
+                ord(nmax, nmax - F::ONE),
+                (-F::ONE, F::ZERO),
+            ];
+            for _ in 0..nr {
+                v.push((rnd_below(rng, &bx), rnd_below(rng, &by)));
+            }
+            cap_override = Some(if thorough { 25 } else { 13 });
+            two_n(v)
+        }
         Bin { n, .. } => bitsv(bit_patterns(rng, *n, nr, thorough)),
         Bnot(k) | BoundedOf(k) | CmpFixed { n: k, .. } => {
             let mut v = nat_bounded(rng, &two_pow(*k), nr);
@@ -893,8 +985,10 @@ fn inputs_pool(kind: &Kind, thorough: bool, rng: &mut ChaCha8Rng) -> (Vec<Vec<V>
             cap_override = Some(if thorough { 2 * m + 2 } else { 6 });
             lens.into_iter().map(|l| vec_elems(rng, *t, l)).collect()
         }
-        VecTrim { t, m, a, n } => {
-            let mut lens: Vec<usize> = vec![*n, *m, n + 1, n + a, n.saturating_sub(1), (n + m) / 2, 0, n + a - 1, n + a + 1];
+        VecTrim { t, m, a, n, .. } => {
+            // len in {n, n-1, M, n+1, 0, 1} first, then the residues that a confusion between n
+            // and n mod A / n - A would let through
+            let mut lens: Vec<usize> = vec![*n, n.saturating_sub(1), *m, n + 1, 0, 1, n % a, n.saturating_sub(*a), n + a, (n + m) / 2, n + a - 1, n + a + 1];
             lens.retain(|l| l <= m);
             let mut seen = vec![];
             lens.retain(|l| {
@@ -909,7 +1003,7 @@ fn inputs_pool(kind: &Kind, thorough: bool, rng: &mut ChaCha8Rng) -> (Vec<Vec<V>
                     }
                 }
             }
-            cap_override = Some(if thorough { m + 2 } else { 5 });
+            cap_override = Some(if thorough { m + 2 } else { 8 });
             lens.into_iter().map(|l| vec_elems(rng, *t, l)).collect()
         }
         AssignMany { ty, len, .. } => {
